@@ -68,8 +68,28 @@ type writeLog struct {
 	full  map[string]bool     // keys written at unknown / loop-varying addresses
 	addrs map[string][]string // keys written only at these (candidate loop-invariant) addresses
 	cells map[*Cell]bool
+	paths map[*Cell][][]int // field paths written inside struct-valued cells (nil entry = whole cell)
+	whole map[*Cell]bool
 	all   bool
 	startN int
+}
+
+func (wl *writeLog) noteCell(c *Cell, path []int) {
+	wl.cells[c] = true
+	if wl.paths == nil {
+		wl.paths = map[*Cell][][]int{}
+		wl.whole = map[*Cell]bool{}
+	}
+	if len(path) == 0 {
+		wl.whole[c] = true
+		return
+	}
+	for _, p := range wl.paths[c] {
+		if fmt.Sprint(p) == fmt.Sprint(path) {
+			return
+		}
+	}
+	wl.paths[c] = append(wl.paths[c], append([]int(nil), path...))
 }
 
 func newWriteLog(n int) *writeLog {
@@ -117,6 +137,12 @@ func (wl *writeLog) mergeInto(dst *writeLog) {
 	}
 	for k := range wl.cells {
 		dst.cells[k] = true
+		if wl.whole[k] || len(wl.paths[k]) == 0 {
+			dst.noteCell(k, nil)
+		}
+		for _, p := range wl.paths[k] {
+			dst.noteCell(k, p)
+		}
 	}
 	if wl.all {
 		dst.all = true
@@ -515,6 +541,18 @@ func (a *Act) enterLoop(h *ssa.BasicBlock, st *State, ins []edgeIn) {
 			continue // declared inside the loop
 		}
 		srt := old.Sort
+		if !wl.whole[c] && len(wl.paths[c]) > 0 && len(wl.paths[c]) <= 8 && old.S != "" {
+			// only some fields of the struct-valued variable are written in the loop
+			cur := old
+			for _, p := range wl.paths[c] {
+				ft := a.getPath(cur, p)
+				fv := a.freshVal("lv_"+c.Name, ft.T)
+				cur = a.setPath(cur, p, fv)
+				cur.S = vc.define("lv_"+c.Name, cur.Sort, cur.S)
+			}
+			st.cells[c] = cur
+			continue
+		}
 		nv := vc.fresh("lv_"+c.Name, srt)
 		vc.assume("true", vc.g.rangeFact(c.T, nv))
 		st.cells[c] = Val{S: nv, Sort: srt, T: c.T}
@@ -912,7 +950,7 @@ func (a *Act) storeTo(st *State, p Val, v Val, pos token.Pos) {
 			}
 			st.cells[c] = nv
 			if a.writeLog != nil {
-				a.writeLog.cells[c] = true
+				a.writeLog.noteCell(c, p.P.Path)
 			}
 			return
 		case ptrField:
